@@ -31,6 +31,8 @@ type Knobs struct {
 	StallMaxUs   int64   `json:"stall_max_us"`
 	GetFill      int     `json:"get_fill"`
 	Quarantine   int     `json:"quarantine"`
+	// NoPoison: released pool buffers keep their contents.
+	NoPoison bool `json:"no_poison,omitempty"`
 	// OtterBatch: write batch size of the memory cache backend (0 = shipped 64).
 	OtterBatch int `json:"otter_batch,omitempty"`
 	UDPMaxBatch  int     `json:"udp_max_batch"`
